@@ -6,9 +6,10 @@
 #include <string.h>
 #include <stdlib.h>
 
-#define NITEMS 6
-enum { OP_PUSH, OP_POP, OP_TRYPOP, OP_CHAIN2 };
-typedef struct { int type; int a, b; int res; long call, ret; } op_t;   /* a,b: item ids (pushed / chained), res: popped id or -1 */
+#define NITEMS 33                  /* 0..5: the hand-written scripts; generated scripts: 0..2 initial content, 3 + 10 t + j = j-th fresh item of thread t */
+#define NOSAN __attribute__((no_sanitize_thread, noinline))
+enum { OP_PUSH, OP_POP, OP_TRYPOP, OP_CHAIN2, OP_CHAIN3 };
+typedef struct { int type; int a, b, c; int res; long call, ret; } op_t;   /* a,b,c: item ids (pushed / chained, a = first of the ring), res: popped id or -1 */
 #define MAXOPS 12
 static op_t ops[MAXOPS]; static int nops;
 static parsec_lifo_t *lifo;
@@ -17,9 +18,9 @@ static int init_stack[NITEMS], ninit;             /* bottom .. top */
 static int final_stack[NITEMS], nfinal;           /* top .. bottom */
 
 static int id_of(parsec_list_item_t *it) { if (!it) return -1; for (int i = 0; i < NITEMS; i++) if (items[i] == it) return i; return -2; }
-static const char *opname[] = { "push", "pop", "try_pop", "chain" };
+static const char *opname[] = { "push", "pop", "try_pop", "chain", "chain3" };
 
-static int new_op(int type, int a, int b) { int k = __sync_fetch_and_add(&nops, 1); ops[k].type = type; ops[k].a = a; ops[k].b = b; ops[k].res = -9; return k; }
+static int new_op(int type, int a, int b) { int k = __sync_fetch_and_add(&nops, 1); if (k >= MAXOPS) abort(); ops[k].type = type; ops[k].a = a; ops[k].b = b; ops[k].c = -1; ops[k].res = -9; return k; }
 static void do_push(int a) { int k = new_op(OP_PUSH, a, -1); ops[k].call = cs_stamp(); parsec_lifo_push(lifo, items[a]); ops[k].ret = cs_stamp(); }
 static int do_pop(void) { int k = new_op(OP_POP, -1, -1); ops[k].call = cs_stamp(); parsec_list_item_t *it = parsec_lifo_pop(lifo); ops[k].ret = cs_stamp(); ops[k].res = id_of(it); return ops[k].res; }
 static int do_trypop(void) { int k = new_op(OP_TRYPOP, -1, -1); ops[k].call = cs_stamp(); parsec_list_item_t *it = parsec_lifo_try_pop(lifo); ops[k].ret = cs_stamp(); ops[k].res = id_of(it); return ops[k].res; }
@@ -31,17 +32,31 @@ static void do_chain2(int a, int b)
     ops[k].call = cs_stamp(); parsec_lifo_chain(lifo, items[a]); ops[k].ret = cs_stamp();
 }
 
+/* ring a -> b -> c (a first, c = tail = a->list_prev): with three items list_prev differs from list_next */
+NOSAN static void link3(int a, int b, int c)
+{
+    items[a]->list_next = items[b]; items[b]->list_next = items[c]; items[c]->list_next = items[a];
+    items[a]->list_prev = items[c]; items[b]->list_prev = items[a]; items[c]->list_prev = items[b];
+}
+static void do_chain3(int a, int b, int c)
+{
+    int k = new_op(OP_CHAIN3, a, b); ops[k].c = c;
+    link3(a, b, c);
+    ops[k].call = cs_stamp(); parsec_lifo_chain(lifo, items[a]); ops[k].ret = cs_stamp();
+}
+
 /* sequential model check of one candidate order */
 static int seq_check(const int *order, int n, void *ctx)
 {
     (void)ctx;
-    int st[2 * NITEMS + 4], sp = 0;
+    int st[3 * MAXOPS + NITEMS + 4], sp = 0;
     for (int i = 0; i < ninit; i++) st[sp++] = init_stack[i];
     for (int i = 0; i < n; i++) {
         op_t *o = &ops[order[i]];
         switch (o->type) {
         case OP_PUSH: st[sp++] = o->a; break;
         case OP_CHAIN2: st[sp++] = o->b; st[sp++] = o->a; break;
+        case OP_CHAIN3: st[sp++] = o->c; st[sp++] = o->b; st[sp++] = o->a; break;
         case OP_POP: { int e = sp ? st[--sp] : -1; if (e != o->res) return 0; } break;
         case OP_TRYPOP:
             if (o->res == -1) {
@@ -83,13 +98,16 @@ static void finish_and_check(void)
     for (int k = 0; k < nops; k++) CS_CHECK(ops[k].res != -2, "pop returned a pointer that is not an item");
     for (int k = 0; k < nops; k++) if ((ops[k].type == OP_POP || ops[k].type == OP_TRYPOP) && ops[k].res >= 0) popped[ops[k].res]++;
     for (int i = 0; i < ninit; i++) inserted[init_stack[i]]++;
-    for (int k = 0; k < nops; k++) { if (ops[k].type == OP_PUSH) inserted[ops[k].a]++; if (ops[k].type == OP_CHAIN2) { inserted[ops[k].a]++; inserted[ops[k].b]++; } }
+    for (int k = 0; k < nops; k++) { if (ops[k].type == OP_PUSH) inserted[ops[k].a]++; if (ops[k].type == OP_CHAIN2) { inserted[ops[k].a]++; inserted[ops[k].b]++; } if (ops[k].type == OP_CHAIN3) { inserted[ops[k].a]++; inserted[ops[k].b]++; inserted[ops[k].c]++; } }
     for (int i = 0; i < NITEMS; i++)
         CS_CHECK(inserted[i] - popped[i] == seen[i], "item %d: inserted %d times, popped %d times, in lifo %d (lost or duplicated)", i, inserted[i], popped[i], seen[i]);
     cs_span_t sp[MAXOPS];
     for (int k = 0; k < nops; k++) { sp[k].call = ops[k].call; sp[k].ret = ops[k].ret; }
     char buf[400]; int o = 0;
-    for (int k = 0; k < nops; k++) o += snprintf(buf + o, sizeof(buf) - o, "%s(%d,%d)=%d ", opname[ops[k].type], ops[k].a, ops[k].b, ops[k].res);
+    for (int k = 0; k < nops; k++) {
+        if (ops[k].type == OP_CHAIN3) o += snprintf(buf + o, sizeof(buf) - o, "%s(%d,%d,%d)=%d ", opname[ops[k].type], ops[k].a, ops[k].b, ops[k].c, ops[k].res);
+        else o += snprintf(buf + o, sizeof(buf) - o, "%s(%d,%d)=%d ", opname[ops[k].type], ops[k].a, ops[k].b, ops[k].res);
+    }
     o += snprintf(buf + o, sizeof(buf) - o, "| final:");
     for (int i = 0; i < nfinal; i++) o += snprintf(buf + o, sizeof(buf) - o, " %d", final_stack[i]);
     CS_CHECK(cs_linearizable(sp, nops, seq_check, NULL), "history not linearizable w.r.t. a sequential stack: %s", buf);
@@ -128,6 +146,142 @@ static void s6_t0(void *a) { (void)a; do_chain2(3, 4); int x = do_pop(); (void)x
 static void s6_t1(void *a) { (void)a; do_pop(); }
 static void scen_chain2(void) { setup_lifo(0); cs_body_t b[] = { s6_t0, s6_t1 }; cs_run(2, b, NULL); finish_and_check(); }
 
+
+/* ==================================================================================================================
+ * Generated (bounded-exhaustive) script families.
+ *
+ *   script = pre-state N<n> (n = 0..3 items in the lifo, item 0 on top)  x  T0: a ops || T1: b ops (|| T2: c ops)
+ *   op     = p  pop                       t  try_pop
+ *            u  push a fresh item         b  push back the OLDEST item this thread popped and still holds (skipped when it holds none)
+ *            c  chain a ring of 2 fresh items            C  chain a ring of 3 fresh items (tail != second item)
+ * The argument domain is as small as it can be: an operation either brings its own (fresh) items - renaming them changes nothing -
+ * or RE-USES an item popped earlier by the same thread ('b'): re-use of an address is what makes operations on a lifo collide (ABA);
+ * all operations collide on the single head.
+ * Family = ALL scripts of a shape, minus those that violate the usage contract ('b' where the thread cannot hold an item: an item may
+ * only be pushed by the thread that owns it, i.e. popped it), up to renaming of threads of equal length.
+ * Text of a script (= scenario name, stored in the replay file):  g.N<n>.<ops of T0>.<ops of T1>[.<ops of T2>]   e.g. g.N3.ppb.p
+ * Selection: C30_GEN="shape=3,1;ops=ptubcC;pre=0123;range=lo:hi"  (ops1=... gives T1/T2 a smaller alphabet than T0; with ops1 the threads
+ *            are not interchangeable unless they have the same alphabet: see g_canonical)
+ * ================================================================================================================== */
+static const char gopl[] = "ptubcC";
+typedef struct { int ninit, nthr, len[3]; char s[3][6]; char name[48]; } gdef_t;
+static gdef_t *gdefs; static int ngdefs, capgdefs;
+static long gen_raw, gen_contract;
+
+static void g_thread(const gdef_t *g, int t)
+{
+    int held[8], nh = 0, hh = 0, fresh = 3 + 10 * t;
+    for (int j = 0; j < g->len[t]; j++) {
+        switch (g->s[t][j]) {
+        case 'p': { int x = do_pop(); if (x >= 0) held[nh++] = x; } break;
+        case 't': { int x = do_trypop(); if (x >= 0) held[nh++] = x; } break;
+        case 'u': do_push(fresh++); break;
+        case 'b': if (hh < nh) do_push(held[hh++]); break;
+        case 'c': do_chain2(fresh, fresh + 1); fresh += 2; break;
+        case 'C': do_chain3(fresh, fresh + 1, fresh + 2); fresh += 3; break;
+        }
+    }
+}
+static const gdef_t *cur_g;
+static void g_t0(void *a) { (void)a; g_thread(cur_g, 0); }
+static void g_t1(void *a) { (void)a; g_thread(cur_g, 1); }
+static void g_t2(void *a) { (void)a; g_thread(cur_g, 2); }
+static void run_g(const gdef_t *g) { cur_g = g; setup_lifo(g->ninit); cs_body_t b[] = { g_t0, g_t1, g_t2 }; cs_run(g->nthr, b, NULL); finish_and_check(); }
+
+static void g_name(gdef_t *g)
+{
+    int o = snprintf(g->name, sizeof(g->name), "g.N%d", g->ninit);
+    for (int t = 0; t < g->nthr; t++) { g->name[o++] = '.'; for (int j = 0; j < g->len[t]; j++) g->name[o++] = g->s[t][j]; }
+    g->name[o] = 0;
+}
+static int g_parse(const char *txt, gdef_t *g)
+{
+    memset(g, 0, sizeof(*g));
+    if (strncmp(txt, "g.N", 3) || txt[3] < '0' || txt[3] > '3' || strlen(txt) >= sizeof(g->name)) return -1;
+    g->ninit = txt[3] - '0';
+    int t = -1;
+    for (const char *q = txt + 4; *q; q++) {
+        if (*q == '.') { if (++t >= 3) return -1; continue; }
+        if (t < 0 || !strchr(gopl, *q) || g->len[t] >= 5) return -1;
+        g->s[t][g->len[t]++] = *q;
+    }
+    if (t < 1) return -1;
+    for (int i = 0; i <= t; i++) if (!g->len[i]) return -1;
+    g->nthr = t + 1; strcpy(g->name, txt);
+    return 0;
+}
+/* usage contract: a thread pushes only items it owns. 'b' is generated only where the thread may hold an item (more pops than
+ * push-backs before it in program order); if the pops returned NULL at run time the 'b' is skipped. */
+static int g_contract(const gdef_t *g)
+{
+    for (int t = 0; t < g->nthr; t++) { int h = 0; for (int j = 0; j < g->len[t]; j++) { char c = g->s[t][j]; if (c == 'p' || c == 't') h++; if (c == 'b' && --h < 0) return 0; } }
+    return 1;
+}
+static int g_distinct_t0;      /* ops1 given: T0 draws from another alphabet than T1/T2 and is not interchangeable with them */
+static int g_canonical(const gdef_t *g)
+{
+    /* threads of equal length are interchangeable: keep the script whose threads (of equal length) are in non-decreasing order */
+    for (int t = g_distinct_t0 ? 1 : 0; t + 1 < g->nthr; t++) if (g->len[t] == g->len[t + 1] && strncmp(g->s[t], g->s[t + 1], g->len[t]) > 0) return 0;
+    return 1;
+}
+static void gen_family(const char *spec, int list_only)
+{
+    int shape[3] = {1, 1, 0}, nthr = 2, prel[4], npre = 0; char opsel[8] = "", opsel1[8] = ""; long lo = 0, hi = -1;
+    char buf[256]; snprintf(buf, sizeof(buf), "%s", spec);
+    for (char *tok = strtok(buf, ";"); tok; tok = strtok(NULL, ";")) {
+        if (!strncmp(tok, "shape=", 6)) nthr = sscanf(tok + 6, "%d,%d,%d", &shape[0], &shape[1], &shape[2]);
+        else if (!strncmp(tok, "ops=", 4)) { int n = 0; for (char *c = tok + 4; *c; c++) if (strchr(gopl, *c) && n < 6) opsel[n++] = *c; opsel[n] = 0; }
+        else if (!strncmp(tok, "ops1=", 5)) { int n = 0; for (char *c = tok + 5; *c; c++) if (strchr(gopl, *c) && n < 6) opsel1[n++] = *c; opsel1[n] = 0; }   /* alphabet of T1, T2 (default: ops) */
+        else if (!strncmp(tok, "pre=", 4)) { for (char *c = tok + 4; *c; c++) if (*c >= '0' && *c <= '3' && npre < 4) prel[npre++] = *c - '0'; }
+        else if (!strncmp(tok, "range=", 6)) sscanf(tok + 6, "%ld:%ld", &lo, &hi);
+        else { fprintf(stderr, "C30: bad C30_GEN token '%s'\n", tok); exit(2); }
+    }
+    if (!opsel1[0]) strcpy(opsel1, opsel); else g_distinct_t0 = strcmp(opsel, opsel1) != 0;
+    int na = (int)strlen(opsel), na1 = (int)strlen(opsel1), total = 0;
+    if (nthr < 2 || nthr > 3 || !na || !npre) { fprintf(stderr, "C30: incomplete C30_GEN '%s'\n", spec); exit(2); }
+    for (int t = 0; t < nthr; t++) { if (shape[t] < 1 || shape[t] > 3) { fprintf(stderr, "C30: bad shape (1..3 operations per thread)\n"); exit(2); } total += shape[t]; }
+    if (total > 7) { fprintf(stderr, "C30: shape too large\n"); exit(2); }
+    int radix[8]; { int q = 0; for (int t = 0; t < nthr; t++) for (int j = 0; j < shape[t]; j++) radix[q++] = t ? na1 : na; }
+    long ncomb = 1; for (int i = 0; i < total; i++) ncomb *= radix[i];
+    long idx = 0;
+    for (int pi = 0; pi < npre; pi++) for (long c = 0; c < ncomb; c++) {
+        gdef_t g; memset(&g, 0, sizeof(g)); g.ninit = prel[pi]; g.nthr = nthr;
+        int dig[8]; long r = c; for (int i = total - 1; i >= 0; i--) { dig[i] = (int)(r % radix[i]); r /= radix[i]; }
+        int q = 0; for (int t = 0; t < nthr; t++) { g.len[t] = shape[t]; for (int j = 0; j < shape[t]; j++) g.s[t][j] = (t ? opsel1 : opsel)[dig[q++]]; }
+        gen_raw++;
+        if (!g_contract(&g)) continue;
+        gen_contract++;
+        if (!g_canonical(&g)) continue;
+        long me = idx++;
+        if (me < lo || (hi >= 0 && me >= hi)) continue;
+        if (ngdefs == capgdefs) { capgdefs = capgdefs ? 2 * capgdefs : 256; gdefs = realloc(gdefs, capgdefs * sizeof(gdef_t)); }
+        g_name(&g); gdefs[ngdefs++] = g;
+    }
+    if (list_only) {
+        printf("{\"spec\":\"%s\",\"alphabet\":%d,\"generated\":%ld,\"after_contract\":%ld,\"after_relevance\":%ld,\"after_symmetry\":%ld,\"scripts\":[", spec, na, gen_raw, gen_contract, gen_contract, idx);
+        for (int i = 0; i < ngdefs; i++) printf("%s\"%s\"", i ? "," : "", gdefs[i].name);
+        printf("]}\n");
+    }
+}
+/* cosched scenarios carry a parameterless run(): one trampoline per slot of gdefs[] */
+#define MAXGEN 4096
+#define G1(h)   static void gr_##h(void) { run_g(&gdefs[0x##h]); }
+#define G16(h)  G1(h##0) G1(h##1) G1(h##2) G1(h##3) G1(h##4) G1(h##5) G1(h##6) G1(h##7) G1(h##8) G1(h##9) G1(h##a) G1(h##b) G1(h##c) G1(h##d) G1(h##e) G1(h##f)
+#define G256(h) G16(h##0) G16(h##1) G16(h##2) G16(h##3) G16(h##4) G16(h##5) G16(h##6) G16(h##7) G16(h##8) G16(h##9) G16(h##a) G16(h##b) G16(h##c) G16(h##d) G16(h##e) G16(h##f)
+G256(0) G256(1) G256(2) G256(3) G256(4) G256(5) G256(6) G256(7) G256(8) G256(9) G256(a) G256(b) G256(c) G256(d) G256(e) G256(f)
+#define A1(h)   gr_##h,
+#define A16(h)  A1(h##0) A1(h##1) A1(h##2) A1(h##3) A1(h##4) A1(h##5) A1(h##6) A1(h##7) A1(h##8) A1(h##9) A1(h##a) A1(h##b) A1(h##c) A1(h##d) A1(h##e) A1(h##f)
+#define A256(h) A16(h##0) A16(h##1) A16(h##2) A16(h##3) A16(h##4) A16(h##5) A16(h##6) A16(h##7) A16(h##8) A16(h##9) A16(h##a) A16(h##b) A16(h##c) A16(h##d) A16(h##e) A16(h##f)
+static void (*const gtramp[MAXGEN])(void) = { A256(0) A256(1) A256(2) A256(3) A256(4) A256(5) A256(6) A256(7) A256(8) A256(9) A256(a) A256(b) A256(c) A256(d) A256(e) A256(f) };
+static int gen_main(int argc, char **argv)
+{
+    if (ngdefs > MAXGEN) { fprintf(stderr, "C30: %d generated scripts in one invocation (max %d): use range=\n", ngdefs, MAXGEN); return 2; }
+    if (ngdefs == 0) { fprintf(stderr, "C30: the selection holds no script\n"); return 2; }
+    cs_scenario_t *sc = calloc(ngdefs, sizeof(*sc));
+    for (int i = 0; i < ngdefs; i++) { sc[i].name = gdefs[i].name; sc[i].run = gtramp[i]; }
+    return cs_main(argc, argv, "C30", sc, ngdefs, NULL);
+}
+
 static cs_scenario_t scenarios[] = {
     { "aba_pop_vs_pop_pop_push", scen_aba, 0 },
     { "push_pop_push", scen_ppp, 0 },
@@ -136,4 +290,24 @@ static cs_scenario_t scenarios[] = {
     { "aba3", scen_aba3, 0 },
     { "chain_order", scen_chain2, 0 },
 };
-int main(int argc, char **argv) { return cs_main(argc, argv, "C30", scenarios, sizeof(scenarios) / sizeof(scenarios[0]), NULL); }
+int main(int argc, char **argv)
+{
+    /* generated families: C30_GEN=<spec> explores (a range of) a family; --gen-list prints it; the replay file of a generated script
+     * carries the script text as its scenario name, from which the script is rebuilt */
+    for (int i = 1; i < argc; i++) {
+        if (!strcmp(argv[i], "--gen-list")) { const char *g = getenv("C30_GEN"); if (!g) return 2; gen_family(g, 1); return 0; }
+        if (!strcmp(argv[i], "--replay") && i + 1 < argc) {
+            FILE *f = fopen(argv[i + 1], "r"); char buf[4096]; size_t n = f ? fread(buf, 1, sizeof(buf) - 1, f) : 0; if (f) fclose(f); buf[n] = 0;
+            char *q = strstr(buf, "\"scenario\":\"g.");
+            if (q) {
+                q += 12; char *e = strchr(q, '"'); if (!e) return 2; *e = 0;
+                gdefs = calloc(1, sizeof(gdef_t)); ngdefs = 1;
+                if (g_parse(q, &gdefs[0])) { fprintf(stderr, "C30: cannot parse the script text '%s'\n", q); return 2; }
+                printf("generated script %s (rebuilt from the scenario text of the replay file)\n", q);
+                return gen_main(argc, argv);
+            }
+        }
+    }
+    if (getenv("C30_GEN") && *getenv("C30_GEN")) { gen_family(getenv("C30_GEN"), 0); return gen_main(argc, argv); }
+    return cs_main(argc, argv, "C30", scenarios, sizeof(scenarios) / sizeof(scenarios[0]), NULL);
+}
